@@ -503,6 +503,78 @@ auto case2(int which, int variant, T x, T y, bool special, bool run_mode) -> std
     return d;
 }
 
+// hypot(x, y, z).  Oracle: C23 / IEC 60559 rules - +inf if ANY argument is an infinity (also next to a NaN), otherwise NaN
+// if any argument is a NaN, otherwise sqrt(x^2 + y^2 + z^2) formed in long double and rounded once.  (libstdc++ 12's
+// three-argument std::hypot mishandles the special values, so it is not the reference.)
+// special: the arguments come from the special-value table (class and sign compared exactly).
+template <typename T>
+auto case_hypot3(T a, T b, T cc, bool special, bool run_mode) -> std::string
+{
+    Case k{special ? "hypot3s" : "hypot3", BitsOf<T>::name, 3, bits(a), bits(b), bits(cc)};
+    vf::Flight<Case> fl("hypot", k);
+    if (run_mode && vf::ctx().excluded("C16.sqrt.gcem") && cls_hypot<T>(a, b, cc)) {
+        vf::excluded_known("C16.sqrt.gcem");
+        return "";
+    }
+    T const e = etl::hypot(a, b, cc);
+    T r{};
+    if (inf_b(a) || inf_b(b) || inf_b(cc)) {
+        r = std::numeric_limits<T>::infinity();
+    } else if (nan_b(a) || nan_b(b) || nan_b(cc)) {
+        r = std::numeric_limits<T>::quiet_NaN();
+    } else {
+        long double const la = a, lb = b, lc = cc;
+        r = static_cast<T>(rl_sqrt(la * la + lb * lb + lc * lc));
+    }
+    auto const d = judge<T>("hypot(x,y,z)", "hypot", e, r, special, [&] { return show_arg(a) + ", " + show_arg(b) + ", " + show_arg(cc); });
+    if (run_mode) {
+        vf::eval("hypot");
+        if (!d.empty() && !measure_swallow("hypot3", d)) { vf::mismatch("hypot", k, d); }
+    }
+    return d;
+}
+
+// pow(base, int): the declared mixed overloads pow(float, int) / pow(double, int).  Oracle: libm pow on (base, T(n)).
+template <typename T>
+auto case_pow_int(T x, int n, bool special, bool run_mode) -> std::string
+{
+    Case k{special ? "pow_ints" : "pow_int", BitsOf<T>::name, 2, bits(x), static_cast<u64>(static_cast<std::uint32_t>(n)), 0};
+    vf::Flight<Case> fl("pow", k);
+    T const e    = etl::pow(x, n);
+    T const r    = ref2<T>(0, x, static_cast<T>(n));
+    auto const d = judge<T>("pow(x,int)", "pow", e, r, special, [&] { return show_arg(x) + ", int " + std::to_string(n); });
+    if (run_mode) {
+        vf::eval("pow");
+        if (!d.empty() && !measure_swallow("pow(x,int)", d)) { vf::mismatch("pow", k, d); }
+    }
+    return d;
+}
+
+// atan2 / hypot called with one int argument: resolves to the (T, T) form through the implicit conversion; compared with
+// libm on the converted arguments in the type etl returns.  which: 1 atan2, 2 hypot; int_first: f(n, x) instead of f(x, n)
+template <typename T>
+auto case_mixed2(int which, bool int_first, T x, int n, bool run_mode) -> std::string
+{
+    static char const* const names[2][2] = {{"atan2_xi", "atan2_ix"}, {"hypot_xi", "hypot_ix"}};
+    Case k{names[which - 1][int_first ? 1 : 0], BitsOf<T>::name, 2, bits(x), static_cast<u64>(static_cast<std::uint32_t>(n)), 0};
+    vf::Flight<Case> fl(k_fn2[which], k);
+    T e{};
+    if (which == 1) {
+        e = int_first ? etl::atan2(n, x) : etl::atan2(x, n);
+    } else {
+        e = int_first ? etl::hypot(n, x) : etl::hypot(x, n);
+    }
+    T const tn   = static_cast<T>(n);
+    T const r    = int_first ? ref2<T>(which, tn, x) : ref2<T>(which, x, tn);
+    bool const sp = nan_b(x) || inf_b(x) || zero_b(x) || n == 0;
+    auto const d = judge<T>(k.fn, k_fn2[which], e, r, sp, [&] { return show_arg(x) + " with int " + std::to_string(n); });
+    if (run_mode) {
+        vf::eval(k_fn2[which]);
+        if (!d.empty() && !measure_swallow(k.fn, d)) { vf::mismatch(k_fn2[which], k, d); }
+    }
+    return d;
+}
+
 template <typename T>
 void run_fn2(vf::Ctx& c, std::uint64_t nsamples, vf::Rng& rng)
 {
@@ -521,6 +593,39 @@ void run_fn2(vf::Ctx& c, std::uint64_t nsamples, vf::Rng& rng)
                     ++nt;
                     ++total;
                 }
+            }
+        }
+    }
+    if (c.shard == 0) {
+        // three-argument hypot: every arrangement of {NaN, -NaN, +-inf, +-0, finite} over the three positions
+        std::vector<T> const hv{nan, -nan, inf, -inf, T(0), -T(0), T(1), -T(2.5), T(3), T(0x1p-20)};
+        for (T x : hv) {
+            for (T y : hv) {
+                for (T z : hv) {
+                    case_hypot3<T>(x, y, z, true, true);
+                    ++nt;
+                    ++total;
+                }
+            }
+        }
+        // atan2 / hypot with an int on either side
+        for (T x : {T(0), -T(0), T(1), -T(1), T(0.5), T(2.5), -T(3), T(1e-3), T(12345.678), inf, -inf, nan}) {
+            for (int n2 : {0, 1, -1, 2, -3, 10, -1000, 16777217, 2147483647, -2147483647 - 1}) {
+                for (int w = 1; w <= 2; ++w) {
+                    case_mixed2<T>(w, false, x, n2, true);
+                    case_mixed2<T>(w, true, x, n2, true);
+                    ++nt;
+                    ++total;
+                }
+            }
+        }
+        // pow(x, int): Annex F rows that involve an integral exponent, and the textbook subnormal / overflow results
+        std::vector<T> const pb{T(0), -T(0), T(1), -T(1), T(0.5), -T(0.5), T(2), -T(2), T(10), -T(10), T(1e10), -T(1e5), inf, -inf, nan, std::numeric_limits<T>::denorm_min(), std::numeric_limits<T>::max(), -std::numeric_limits<T>::max()};
+        for (T x : pb) {
+            for (int n2 : {0, 1, -1, 2, -2, 3, -3, 31, -31, 38, -38, 40, -40, 45, -45, 63, -63, 64, -64, 65, -65, 127, -128, 149, -149, 308, -308, 320, -320, 1074, -1075, 2147483647, -2147483647 - 1}) {
+                case_pow_int<T>(x, n2, true, true);
+                ++nt;
+                ++total;
             }
         }
     }
@@ -571,7 +676,7 @@ void run_fn2(vf::Ctx& c, std::uint64_t nsamples, vf::Rng& rng)
                 if (zero_b(y)) { y = T(3); }
             }
             case2<T>(0, 0, x, y, false, true);
-            if (shape <= 1) { case2<T>(0, 2, x, y, false, true); } // pow(x, int)
+            if (shape <= 1) { case_pow_int<T>(x, static_cast<int>(y), false, true); } // pow(x, int)
             if constexpr (sizeof(T) == 4) {
                 if ((i & 7U) == 0) { case2<T>(0, 1, x, y, false, true); }
             }
@@ -618,7 +723,7 @@ void run_fn2(vf::Ctx& c, std::uint64_t nsamples, vf::Rng& rng)
             ++total;
             nt += shape <= 1 || sign_b(x) || sign_b(y);
         }
-        // hypot(x, y, z): reference = sqrtl of the exact-enough long double sum, rounded once
+        // hypot(x, y, z): squares within the normal range
         {
             int const E3 = sizeof(T) == 4 ? 60 : 505;
             T v[3];
@@ -627,19 +732,34 @@ void run_fn2(vf::Ctx& c, std::uint64_t nsamples, vf::Rng& rng)
                 if (rng.below(2) != 0) { q = -q; }
             }
             if (rng.below(2) != 0) { v[1] = static_cast<T>(static_cast<double>(v[0]) * 0.75); }
-            Case k{"hypot3", BitsOf<T>::name, 3, bits(v[0]), bits(v[1]), bits(v[2])};
-            vf::Flight<Case> fl("hypot", k);
-            if (vf::ctx().excluded("C16.sqrt.gcem") && cls_hypot<T>(v[0], v[1], v[2])) {
-                vf::excluded_known("C16.sqrt.gcem");
-                continue;
-            }
-            T const e = etl::hypot(v[0], v[1], v[2]);
-            long double const a = v[0], b = v[1], cc = v[2];
-            T const r    = static_cast<T>(rl_sqrt(a * a + b * b + cc * cc));
-            auto const d = judge<T>("hypot(x,y,z)", "hypot", e, r, false, [&] { return show_arg(v[0]) + ", " + show_arg(v[1]) + ", " + show_arg(v[2]); });
-            vf::eval("hypot");
-            if (!d.empty() && !measure_swallow("hypot3", d)) { vf::mismatch("hypot", k, d); }
+            case_hypot3<T>(v[0], v[1], v[2], false, true);
             ++total;
+        }
+        // pow(x, int): every shape of base, |n| below and above 64, results aimed at the subnormal range and the overflow edge
+        {
+            int n = static_cast<int>(rng.range(-70, 70));
+            if (rng.below(8) == 0) { n = static_cast<int>(rng.range(-2000, 2000)); }
+            if (n == 0) { n = -1; }
+            T x{};
+            auto const shape = rng.below(4);
+            if (shape == 0) {
+                x = any_finite();
+            } else if (shape == 1) { // result 2^t with t in the subnormal window or just below / above it
+                double const t = sizeof(T) == 4 ? rng.range(-152, -120) + (mant01() - 1.0) : rng.range(-1078, -1015) + (mant01() - 1.0);
+                x              = static_cast<T>(::exp2(t / n));
+                ++pow_edge;
+            } else if (shape == 2) { // result around the overflow threshold
+                double const t = sizeof(T) == 4 ? 124.0 + 5.0 * (mant01() - 1.0) : 1020.0 + 5.0 * (mant01() - 1.0);
+                x              = static_cast<T>(::exp2(t / n));
+                ++pow_edge;
+            } else { // powers of ten and small integers (10^-40 in float is the textbook subnormal)
+                T const bases[] = {T(10), T(-10), T(1e10), T(-1e5), T(2), T(-2), T(0.5), T(3), T(1e-10), T(7), T(0.1)};
+                x               = bases[rng.below(11)];
+            }
+            if (rng.below(4) == 0) { x = -x; }
+            if (!zero_b(x) && !nan_b(x) && !inf_b(x)) { case_pow_int<T>(x, n, false, true); }
+            ++total;
+            ++nt;
         }
     }
     {
@@ -686,26 +806,32 @@ std::string vf_replay(std::string const& /*sub*/, std::string const& cs)
     auto const p = parse_case(cs);
     // binary first
     for (int w = 0; w < 3; ++w) {
-        for (int variant = 0; variant < 3; ++variant) {
-            std::string const nm = variant == 1 ? k_fn2f[w] : (variant == 2 ? "pow_int" : k_fn2[w]);
-            if (variant == 2 && w != 0) { continue; }
+        for (int variant = 0; variant < 2; ++variant) {
+            std::string const nm = variant == 1 ? k_fn2f[w] : k_fn2[w];
             if (p.fn != nm) { continue; }
             if (p.ty == "f32") { return case2<float>(w, variant, u2f(static_cast<u32>(p.a)), u2f(static_cast<u32>(p.b)), p.c != 0, false); }
             if (p.ty == "f64" && variant != 1) { return case2<double>(w, variant, u2d(p.a), u2d(p.b), p.c != 0, false); }
         }
     }
-    if (p.fn == "hypot3") {
-        auto one = [&](auto tag) -> std::string {
-            using T   = decltype(tag);
-            T const a = from_bits<T>(p.a), b = from_bits<T>(p.b), cc = from_bits<T>(p.c);
-            Case k{"hypot3", BitsOf<T>::name, 3, p.a, p.b, p.c};
-            vf::Flight<Case> fl("hypot", k);
-            T const e = etl::hypot(a, b, cc);
-            long double const la = a, lb = b, lc = cc;
-            T const r = static_cast<T>(rl_sqrt(la * la + lb * lb + lc * lc));
-            return judge<T>("hypot(x,y,z)", "hypot", e, r, false, [&] { return show_arg(a) + ", " + show_arg(b) + ", " + show_arg(cc); });
-        };
-        return p.ty == "f32" ? one(float{}) : one(double{});
+    if (p.fn == "hypot3" || p.fn == "hypot3s") {
+        bool const sp = p.fn == "hypot3s";
+        if (p.ty == "f32") { return case_hypot3<float>(u2f(static_cast<u32>(p.a)), u2f(static_cast<u32>(p.b)), u2f(static_cast<u32>(p.c)), sp, false); }
+        return case_hypot3<double>(u2d(p.a), u2d(p.b), u2d(p.c), sp, false);
+    }
+    for (int w = 1; w <= 2; ++w) {
+        for (int f = 0; f < 2; ++f) {
+            std::string const nm = std::string(w == 1 ? "atan2" : "hypot") + (f == 0 ? "_xi" : "_ix");
+            if (p.fn != nm) { continue; }
+            int const n = static_cast<int>(static_cast<std::uint32_t>(p.b));
+            if (p.ty == "f32") { return case_mixed2<float>(w, f == 1, u2f(static_cast<u32>(p.a)), n, false); }
+            return case_mixed2<double>(w, f == 1, u2d(p.a), n, false);
+        }
+    }
+    if (p.fn == "pow_int" || p.fn == "pow_ints") {
+        bool const sp = p.fn == "pow_ints";
+        int const n   = static_cast<int>(static_cast<std::uint32_t>(p.b));
+        if (p.ty == "f32") { return case_pow_int<float>(u2f(static_cast<u32>(p.a)), n, sp, false); }
+        return case_pow_int<double>(u2d(p.a), n, sp, false);
     }
     for (auto const& f : fns()) {
         bool const plain = p.fn == f.name;
